@@ -49,8 +49,8 @@ class Context:
             self._flows[fn] = FnFlow(fn)
         return self._flows[fn]
 
-    def origins(self, fn: FuncInfo) -> Origins:
-        return Origins(self.flow(fn))
+    def origins(self, fn: FuncInfo, values_only: bool = False) -> Origins:
+        return Origins(self.flow(fn), values_only=values_only)
 
     def memo(self, key, compute):
         if key not in self._memo:
